@@ -16,13 +16,17 @@ for line in out.splitlines():
     st, path = line[:2], line[3:]
     if path.startswith(("evidence/", "seeded/", "tools/", "lean/.lake")) or "__pycache__" in path:
         continue
+    if path.startswith("patches/") and pid not in path:
+        continue
     if st.strip() == "??" or st.strip() == "A":
         os.makedirs(os.path.dirname(os.path.join(dst, path)) or dst, exist_ok=True)
         shutil.copy2(os.path.join(src, path), os.path.join(dst, path))
         print("copied ", path)
     elif path == "KNOWN_FINDINGS.txt":
         have = set(open(os.path.join(dst, path)).read().splitlines())
-        new = [l for l in open(os.path.join(src, path)).read().splitlines() if l not in have]
+        new = [l for l in open(os.path.join(src, path)).read().splitlines() if l not in have and f"property={pid} " in l]
+        if pid == "C09":
+            new += [l for l in open(os.path.join(src, path)).read().splitlines() if l not in have and "property=C10 " in l]
         with open(os.path.join(dst, path), "a") as f:
             for l in new:
                 f.write(l + "\n")
